@@ -22,7 +22,7 @@ ASSUMPTIONS = ["rows are matched to the full chain by exact equality (chains of 
 TIMEOUT = {"quick": 300, "thorough": 1800}
 REQUIRED = {"post:get_sample": 400, "post:get_interval": 300, "cases:zero_retained": 20, "cases:one_retained": 20,
             "cases:interval_with_count": 100, "cases:after_replace_last": 20, "post:get_marginal": 40, "cases:read_out_after_interruption": 15,
-            "cases:long_chain": 20, "cases:long_chain_over_20000_rows": 4}
+            "cases:long_chain": 20, "post:get_interval_count_sweep": 1500, "cases:long_chain_over_20000_rows": 4}
 
 
 def jobs(tier, seed):
@@ -147,6 +147,30 @@ def check_readouts(rec, ch, kind, rng, ctx, n_combos, long_run=False):
                               lambda: f"{kind}: get_interval(samples={want_n}) returned no rows although the top fraction holds {strict_top.size}", ictx)
 
 
+def count_sweep(rec, ch, kind, rng, ctx, n_pairs=12):
+    """get_interval(samples=n) for many (rows available, rows requested) pairs: at most n rows come back, all of them pairs of the chain."""
+    full_s, full_p = mc.full_readout(ch)
+    L = full_p.size
+    if L < 3:
+        return
+    pairs = {(bytes(full_p[h].tobytes()), bytes(full_s[h].tobytes())) for h in range(L)}
+    for _ in range(n_pairs):
+        burn = int(rng.integers(0, max(L // 3, 1)))
+        want = int(rng.integers(1, L - burn + 1))
+        frac = float(rng.choice([0.95, 0.9, 0.5, rng.uniform(0.3, 0.999)]))
+        out = guarded(ch.get_interval, interval=frac, burn=burn, samples=want)
+        rec.count("post:get_interval_count_sweep")
+        cctx = {**ctx, "length": L, "burn": burn, "interval": frac, "samples": want}
+        if isinstance(out, Raised):
+            rec.violation("raised", f"{kind}: get_interval(interval={frac:.4f}, burn={burn}, samples={want}) on a chain of {L} rows raised {out!r}", cctx)
+            continue
+        rs, rp = np.asarray(out[0], float), np.asarray(out[1], float)
+        rec.check(rs.shape[0] == rp.size and rp.size <= want, "interval-too-many",
+                  lambda: f"{kind}: get_interval(samples={want}) on {L - burn} burned rows returned {rp.size} rows", cctx)
+        rec.check(all((bytes(np.float64(q).tobytes()), bytes(np.ascontiguousarray(r).tobytes())) in pairs for r, q in zip(rs, rp)), "interval-rows",
+                  lambda: f"{kind}: get_interval(samples={want}) returned a row / log-probability pair that is not a pair of the chain", cctx)
+
+
 def long_runs(job, rec, rng):
     """Production-sized chains: thousands to tens of thousands of rows, read out with a short burn-in and little thinning."""
     for c, kind in enumerate(["ensemble", mc.KINDS[job["j"] % len(mc.KINDS)]]):
@@ -211,6 +235,7 @@ def run_job(job, rec):
         if c < 2:
             rec.sample({**ctx, "steps": steps, "chain_length": int(ch.chain_length)})
         check_readouts(rec, ch, kind, rng, ctx, 6)
+        count_sweep(rec, ch, kind, mk_rng(job["seed"], "C14-counts", job["j"], c), ctx)
 
         # an interruption raised from inside the posterior (Ctrl-C) in the middle of a run; the sampler is kept and read out: rows stay aligned
         if rng.random() < 0.3:
